@@ -10,6 +10,7 @@ from flowmark.linewrapping.tag_handling import add_tag_newline_handling
 from flowmark.linewrapping.text_filling import DEFAULT_WRAP_WIDTH
 from flowmark.linewrapping.text_wrapping import (
     DEFAULT_LEN_FUNCTION,
+    markdown_escape_word,
     wrap_paragraph,
     wrap_paragraph_lines,
 )
@@ -38,6 +39,20 @@ def split_markdown_hard_breaks(text: str) -> list[str]:
     return _line_break_re.split(text)
 
 
+_leading_word_re = re.compile(r"(\s*)(\S+)")
+
+
+def _escape_leading_word(text: str) -> str:
+    """
+    Escape the first word of a text segment if it would otherwise be read as block
+    syntax (list marker, heading, quote, ...) at the start of a line.
+    """
+    match = _leading_word_re.match(text)
+    if not match:
+        return text
+    return match.group(1) + markdown_escape_word(match.group(2)) + text[match.end() :]
+
+
 def _add_markdown_hard_break_handling(base_wrapper: LineWrapper) -> LineWrapper:
     """
     Augments a LineWrapper to first split the text by Markdown hard breaks,
@@ -62,6 +77,10 @@ def _add_markdown_hard_break_handling(base_wrapper: LineWrapper) -> LineWrapper:
             is_last = i == len(segments) - 1
 
             cur_initial_indent = initial_indent if is_first else subsequent_indent
+            if not is_first:
+                # The segment starts a new line inside the paragraph, so its first word
+                # needs the same protection as the first word of any wrapped line.
+                segment = _escape_leading_word(segment)
             wrapped_segment = base_wrapper(segment, cur_initial_indent, subsequent_indent)
             if is_last:
                 wrapped_segments.append(wrapped_segment)
